@@ -251,8 +251,8 @@ Proof.
     eapply frame_trans; [|apply frame_emit]. apply frame_write; auto.
   - apply frame_sched_self.
   - apply frame_set_err.
-  - destruct (is_list_entry _ _); [apply frame_refl|]. apply frame_upd. intros x. repeat split.
-  - destruct (is_list_entry _ _); [apply frame_refl|]. apply frame_upd. intros x. repeat split.
+  - destruct (is_list_entry _ _); apply frame_upd; intros x; repeat split.
+  - destruct (is_list_entry _ _); apply frame_upd; intros x; repeat split.
   - destruct (c_out _ && st) eqn:E; [|apply frame_refl].
     assert (st = true) by (apply andb_true_iff in E; tauto). subst st.
     destruct (n_val (node_at i g)); [|apply frame_emit].
